@@ -1,5 +1,6 @@
 mod cluster;
 mod exec;
+mod fshist;
 mod kit;
 mod stream;
 
@@ -97,6 +98,42 @@ fn registry(prop: &str) -> Option<(CheckSpec, RunFn, Cands)> {
             s.stub = &["tonic HTTP/2 transport is not exercised: service methods are called in-process", "accept loop bypassed (serve_stream)"];
             s.expected_probes = &["result_over_4096_rows", "empty_result", "error_unavailable", "error_bad-request"];
             Some((s, cluster::wire::run_c34, cluster::runs::shrink_candidates))
+        }
+        "C17" => {
+            let s = CheckSpec {
+                prop: "C17",
+                engine: "fs-history-sim",
+                level: "exploration",
+                rule: "one run = one Iceberg table directory written by the harness's reference writer (format v1 or v2, version-hint or uuid-named metadata, URIs in four spellings, equal file names under different partition directories) through 8 seeded commits (append, delete with status 2, manifest rewrite with status 0, overwrite, rollback, delete-file entry, ORC/AVRO entry, remote URI), a quarter of them stopped at a crash point (before the metadata file, metadata half written, metadata complete but hint not updated); after every commit the table is opened at the current snapshot, at every listed snapshot and at an unlisted id, and the returned rows are compared with the ledger of the files that are live in that snapshot; distinct = distinct (format, catalog style, operation/crash-point sequence)",
+                runs_quick: 3000,
+                runs_thorough: 200000,
+                secs_quick: 50,
+                secs_thorough: 900,
+                gate_runs: 16,
+                real: &["storage::iceberg::open_table, latest_metadata_file, data_files_of, resolve_uri", "ParquetTable over the listed files", "ExecutionContext::register_iceberg + sql"],
+                stub: &["the Iceberg writer is the harness's own (apache-avro + serde_json), not a JVM Iceberg library"],
+                assumptions: &["the harness writer produces what Iceberg writers produce: a later snapshot's manifests no longer carry an earlier snapshot's DELETED entries", "a half-written metadata file may make the hint-less discovery fail (allowed, counted), it may not change rows"],
+                expected_probes: &["current_read_matches", "time_travel_matches", "unknown_snapshot_refused", "refused_delete-files", "refused_non-parquet", "refused_remote-uri", "refused_empty-snapshot"],
+            };
+            Some((s, fshist::iceberg::run_c17, stream::no_shrink))
+        }
+        "C19" => {
+            let s = CheckSpec {
+                prop: "C19",
+                engine: "fs-history-sim",
+                level: "exploration",
+                rule: "one run = one Parquet path written, registered in a serving context and queried through every cached read path (morsel aggregate, eager filtered scan, streaming scan, footer-only aggregate), then rewritten 4 times with a seeded combination of replacement mode (in place / temp + rename), byte length (different / identical) and modification time set by the harness (advanced by seconds / advanced inside the same second / preserved exactly), under a seeded sidecar mode (off / auto / build); after every rewrite five queries run on the serving context and on a freshly registered one and must equal an in-memory registration of the rows just written; distinct = distinct (rewrite mode, mtime policy, length class, sidecar mode, context, query, outcome class)",
+                runs_quick: 600,
+                runs_thorough: 40000,
+                secs_quick: 50,
+                secs_thorough: 900,
+                gate_runs: 16,
+                real: &["storage::metadata_cache", "storage::ipc_cache (ensure_sidecar, is_fresh, build_sidecar, read_row_group)", "ParquetTable (schema, statistics cache)", "morsel / streaming / eager Parquet readers"],
+                stub: &["file timestamps are set by the harness with utimensat: this is the clock the caches read"],
+                assumptions: &["a context that registered the table before the rewrite is included: that is what a serving node is", "only same-schema rewrites are generated"],
+                expected_probes: &["same_length_rewrite", "same_length_and_mtime"],
+            };
+            Some((s, fshist::rewrite::run_c19, stream::no_shrink))
         }
         "C16" | "C41" => {
             let c16 = prop == "C16";
